@@ -94,8 +94,8 @@ func (c *Collection) writeWithMeta(key string, body []byte, xattrs []byte, oldCa
 }
 
 // noteForeignCas keeps the high-water marks and the view indexes consistent after a document has been
-// stored with a caller-chosen CAS: the marks never fall behind it, and since incremental view updates only
-// look at documents above a view's lastCas, a CAS at or below the collection's mark invalidates its views.
+// stored with a caller-chosen CAS: the marks and the clock never fall behind it, and since incremental view updates
+// only look at documents above a view's lastCas, a CAS at or below the collection's mark invalidates its views.
 func (c *Collection) noteForeignCas(txn *sql.Tx, cas CAS) error {
 	lastCas, err := c.getLastCas(txn)
 	if err != nil {
@@ -105,6 +105,9 @@ func (c *Collection) noteForeignCas(txn *sql.Tx, cas CAS) error {
 		_, err = txn.Exec(`UPDATE views SET lastCas=0 WHERE designDoc IN (SELECT id FROM designDocs WHERE collection=?1)`, c.id)
 	} else if _, err = txn.Exec(`UPDATE collections SET lastCas=?1 WHERE id=?2`, cas, c.id); err == nil {
 		_, err = txn.Exec(`UPDATE bucket SET lastCas=max(lastCas, ?1)`, cas)
+		// ... and the clock learns of it (as it would from the marks when the bucket is next opened): the writes
+		// that follow are stamped above it, which feeds, checkpoints and view indexes rely on.
+		hlc.updateLatestTime(Timestamp(cas))
 	}
 	return err
 }
